@@ -1,5 +1,6 @@
 import Model.Req
 import Model.ReqFacts
+import Model.ReqSite
 import Spec.Req
 import Generated.C11Superglobals
 import Drivers.Common
@@ -16,6 +17,10 @@ import Drivers.Common
      turn   = request index: run that request up to and including its next gate (or to its end)
     → per request  b=<v>,<v>…/t=<v>,<v>…/left=<n>   joined by `;`   (`~` = null)
   spec <TAB> <scope> <TAB> <req>;…       → per request the body `Spec.Req.respond` prescribes
+  site <TAB> <gen|node|eval> <TAB> <d>,<d>,… <TAB> <turn>,…
+     `Model.ReqSite`: every request runs  mk·gate·call·gate·call·write  through ONE closure literal with its
+     own datum d; scope `gen` = from the regenerated node-write facts, `node` / `eval` explicit
+    → per request the data its two calls observed  <v>,<v>  joined by `;`   (`~` = not reached / null)
   facts                                   → summary of the regenerated facts
 -/
 open Model.Req
@@ -117,8 +122,32 @@ def showObs (l : List Obs) : String :=
 def showReq (q : ReqSt) : String :=
   s!"b={showObs q.body}/t={showObs q.trace}/left={q.pc.length}"
 
+def siteProg : List Model.ReqSite.Step := [.mk 0 0, .gate, .call 0, .gate, .call 0, .write]
+
+def siteSegments : List Model.ReqSite.Step → List Nat → Nat → List Nat
+  | [], acc, cur => (if cur = 0 then acc else cur :: acc).reverse
+  | .gate :: rest, acc, cur => siteSegments rest ((cur + 1) :: acc) 0
+  | _ :: rest, acc, cur => siteSegments rest acc (cur + 1)
+
+def handleSite (scope : String) (ds : String) (turns : String) : String :=
+  let sc : Option (Model.ReqSite.Site → Model.ReqSite.SiteScope) :=
+    if scope == "gen" then some (Model.ReqSite.scopeOf Generated.C11Superglobals.facts)
+    else if scope == "node" then some (fun _ => .inNode)
+    else if scope == "eval" then some (fun _ => .perEvaluation) else none
+  match sc, (ds.splitOn ",").mapM String.toNat?, (if turns.isEmpty then some [] else (turns.splitOn ",").mapM String.toNat?) with
+  | some sc, some ds, some turns =>
+    let w : Model.ReqSite.World := { scope := sc, prog := fun r => if r < ds.length then siteProg else [], env := fun r => ds.getD r 0 }
+    let sched := expand (ds.map fun _ => siteSegments siteProg [] 0) turns
+    let s := Model.ReqSite.run w (Model.ReqSite.init w) sched
+    ";".intercalate ((List.range ds.length).map fun r =>
+      let q := s.req r
+      let obs := q.body ++ q.pending
+      showObs [obs.getD 0 none, obs.getD 1 none])
+  | _, _, _ => "bad-site"
+
 def handle (line : String) : String :=
   match line.splitOn "\t" with
+  | ["site", scope, ds, turns] => handleSite scope ds turns
   | ["sched", cfg, reqs, turns] =>
     match parseCfg cfg with
     | none => "bad-cfg"
@@ -140,7 +169,7 @@ def handle (line : String) : String :=
   | ["facts"] =>
     let f := Generated.C11Superglobals.facts
     let sc := String.ofList (Kind.all.map fun k => if f.scope k = .perRequest then 'R' else 'P')
-    s!"scope={sc} handlerResets={f.handlerResets} outer={f.outer} violations={f.violations.length} entryViolations={f.entryViolations.length}"
+    s!"scope={sc} handlerResets={f.handlerResets} outer={f.outer} violations={f.violations.length} entryViolations={f.entryViolations.length} nodeWrites={f.nodeWrites.length} nodeWriteViolations={f.nodeWriteViolations}"
   | _ => "bad-op"
 
 def main : IO Unit := Drivers.runDriver handle
